@@ -62,7 +62,7 @@ def check_tokens(ctx, line, ops, out, kind, nbytes):
                 t = toks[i] if i < len(toks) else "<missing>"
                 i += 1
                 if n < nbytes:
-                    ok = t.startswith("E:") and set(t[2:]) <= set("on") and (kind != "o" or t == "E:o")
+                    ok = t.startswith("E:") and set(t[2:]) <= set("on") and (kind == "m" or t == "E:o")
                     if not ok:
                         return "truncation to %d of %d bytes: %s (a rejected load must leave every parameter old or completely new; an optimizer unchanged)" % (n, nbytes, t)
                 else:
@@ -73,8 +73,8 @@ def check_tokens(ctx, line, ops, out, kind, nbytes):
             i += 1
             if not TOK_RE.match(t):
                 return "malformed result %s for op %s" % (t, op)
-            if kind == "o" and t.startswith("E:") and t != "E:o":
-                return "optimizer changed by a rejected load (%s): %s" % (op, t)
+            if kind in "po" and t.startswith("E:") and t != "E:o":
+                return "%s changed by a rejected load (%s): %s" % ("Parameter" if kind == "p" else "Optimizer", op, t)
     return None
 
 
@@ -261,6 +261,7 @@ def run(ctx):
     if rc != 0:
         ctx.violation("dmg-crash", {"kind": "crash", "rc": rc, "case": dmg_lines[min(len(outs), len(dmg_lines) - 1)][:30000], "witness": "io-dmg-crash"}, True,
                       "the real load() crashed / hung / was killed on a damaged file (driver rc=%d)" % rc)
+    cov["evaluations"] = cov.get("evaluations", 0) + n_ops
     cov["damage_loads"] = n_ops
     cov["damage_rejected"] = n_rej
     cov["damage_accepted"] = n_acc
